@@ -77,28 +77,55 @@ Qed.
 Lemma read_all : forall md ix, read_columns md ix None = None.
 Proof. reflexivity. Qed.
 
-(* the columns of the meta frame of read_parquet_dask: the request without
-   index levels stored as columns (and without "hilbert_distance"), order kept *)
+(* the columns of the meta frame of read_parquet_dask, dataset WITH pandas
+   metadata: the request without the index levels stored as columns, order
+   kept; nothing else is dropped -- in particular not a column that is merely
+   named "hilbert_distance" *)
 Theorem meta_columns : forall ix cs,
-  cols_no_index ix (Some cs) =
-  Some (filter (fun c => negb (mem c (index_names ix))) cs) /\
-  forall c, In c (filter (fun c => negb (mem c (index_names ix))) cs) <->
-            In c cs /\ c <> "hilbert_distance"%string /\ ~ In (IdxStr c) ix.
+  cols_no_index true ix (Some cs) =
+  Some (filter (fun c => negb (mem c (index_names true ix))) cs) /\
+  forall c, In c (filter (fun c => negb (mem c (index_names true ix))) cs) <->
+            In c cs /\ ~ In (IdxStr c) ix.
 Proof.
   intros ix cs. split; [reflexivity|]. intros c. rewrite filter_In, negb_true_iff.
-  assert (H : mem c (index_names ix) = true <->
-              c = "hilbert_distance"%string \/ In (IdxStr c) ix).
-  { rewrite mem_In. unfold index_names. cbn [In]. rewrite in_flat_map. split.
-    - intros [<-|(d & Hd & Hin)]; [now left|].
+  assert (H : mem c (index_names true ix) = true <-> In (IdxStr c) ix).
+  { rewrite mem_In. unfold index_names. rewrite in_flat_map. split.
+    - intros (d & Hd & Hin).
       destruct d as [m|m|]; cbn in Hin; [|destruct Hin|destruct Hin].
-      destruct Hin as [<-|[]]. now right.
-    - intros [->|Hi]; [now left|]. right. exists (IdxStr c). split; [assumption | now left]. }
+      destruct Hin as [<-|[]]. assumption.
+    - intros Hi. exists (IdxStr c). split; [assumption | now left]. }
   split.
   - intros [Hc Hm]. split; [assumption|].
-    split; intros Hx; (assert (mem c (index_names ix) = true) by (apply H; auto)); congruence.
-  - intros (Hc & H1 & H2). split; [assumption|].
-    destruct (mem c (index_names ix)) eqn:M; [|reflexivity].
-    destruct (proj1 H eq_refl); tauto.
+    intros Hx. assert (mem c (index_names true ix) = true) by (apply H; auto). congruence.
+  - intros (Hc & H2). split; [assumption|].
+    destruct (mem c (index_names true ix)) eqn:M; [|reflexivity].
+    exfalso. apply H2. apply H. reflexivity.
+Qed.
+
+(* dataset WITHOUT pandas metadata (no index description at all): the
+   conventional index name of a packed dataset, and only it, is taken out *)
+Theorem meta_columns_nomd : forall ix cs,
+  cols_no_index false ix (Some cs) =
+  Some (filter (fun c => negb (String.eqb c "hilbert_distance")) cs) /\
+  forall c, In c (filter (fun c => negb (String.eqb c "hilbert_distance")) cs) <->
+            In c cs /\ c <> "hilbert_distance"%string.
+Proof.
+  intros ix cs. split.
+  - unfold cols_no_index, index_names, mem. cbn [option_map existsb]. f_equal.
+    apply filter_ext. intros c. now rewrite orb_false_r.
+  - intros c. rewrite filter_In, negb_true_iff. split.
+    + intros [Hc E]. split; [assumption|]. intros ->. now rewrite String.eqb_refl in E.
+    + intros [Hc N]. split; [assumption|]. now apply String.eqb_neq.
+Qed.
+
+(* a requested column that is not an index level stays in the meta frame,
+   whatever its name (dataset with pandas metadata) *)
+Corollary meta_keeps_hilbert_named_column : forall ix cs,
+  In "hilbert_distance"%string cs -> ~ In (IdxStr "hilbert_distance") ix ->
+  exists kept, cols_no_index true ix (Some cs) = Some kept /\ In "hilbert_distance"%string kept.
+Proof.
+  intros ix cs Hc Hi. destruct (meta_columns ix cs) as [E S].
+  eexists. split; [exact E|]. apply S. auto.
 Qed.
 
 Lemma restore_name_placeholder : restore_index_name (Some "__null_dask_index__"%string) = None.
